@@ -28,6 +28,7 @@ import (
 // ---------- subjects ----------
 
 type subject interface {
+	Raw() interface{} // the connection object (may offer SetDeadline / SetWriteDeadline as well)
 	SetReadDeadline(t time.Time) error
 	Read(p []byte) (int, error)
 	Deliver(data []byte) bool // true when arrival at the reading end is confirmed
@@ -37,19 +38,21 @@ type subject interface {
 
 type sBuffer struct{ b *packetio.Buffer }
 
+func (s *sBuffer) Raw() interface{}                  { return s.b }
 func (s *sBuffer) SetReadDeadline(t time.Time) error { return s.b.SetReadDeadline(t) }
 func (s *sBuffer) Read(p []byte) (int, error)        { return s.b.Read(p) }
-func (s *sBuffer) Deliver(d []byte) bool              { _, err := s.b.Write(d); return err == nil }
-func (s *sBuffer) ReadFrame() string                  { return "packetio.(*Buffer).Read" }
-func (s *sBuffer) Close()                             { s.b.Close() }
+func (s *sBuffer) Deliver(d []byte) bool             { _, err := s.b.Write(d); return err == nil }
+func (s *sBuffer) ReadFrame() string                 { return "packetio.(*Buffer).Read" }
+func (s *sBuffer) Close()                            { s.b.Close() }
 
 type sDpipe struct{ r, w net.Conn }
 
+func (s *sDpipe) Raw() interface{}                  { return s.r }
 func (s *sDpipe) SetReadDeadline(t time.Time) error { return s.r.SetReadDeadline(t) }
 func (s *sDpipe) Read(p []byte) (int, error)        { return s.r.Read(p) }
-func (s *sDpipe) Deliver(d []byte) bool              { _, err := s.w.Write(d); return err == nil }
-func (s *sDpipe) ReadFrame() string                  { return "dpipe.(*conn).Read" }
-func (s *sDpipe) Close()                             { s.r.Close(); s.w.Close() }
+func (s *sDpipe) Deliver(d []byte) bool             { _, err := s.w.Write(d); return err == nil }
+func (s *sDpipe) ReadFrame() string                 { return "dpipe.(*conn).Read" }
+func (s *sDpipe) Close()                            { s.r.Close(); s.w.Close() }
 
 type sUDP struct {
 	l      net.Listener
@@ -75,6 +78,7 @@ func newUDP() (*sUDP, error) {
 	c.Read(buf)
 	return &sUDP{l, c, cl}, nil
 }
+func (s *sUDP) Raw() interface{}                  { return s.c }
 func (s *sUDP) SetReadDeadline(t time.Time) error { return s.c.SetReadDeadline(t) }
 func (s *sUDP) Read(p []byte) (int, error)        { return s.c.Read(p) }
 func (s *sUDP) Deliver(d []byte) bool {
@@ -157,7 +161,10 @@ func newVnet() (*sVnet, error) {
 	}()
 	return s, nil
 }
-func (s *sVnet) SetReadDeadline(t time.Time) error { return s.c.(interface{ SetReadDeadline(time.Time) error }).SetReadDeadline(t) }
+func (s *sVnet) Raw() interface{} { return s.c }
+func (s *sVnet) SetReadDeadline(t time.Time) error {
+	return s.c.(interface{ SetReadDeadline(time.Time) error }).SetReadDeadline(t)
+}
 func (s *sVnet) Read(p []byte) (int, error) {
 	n, _, err := s.c.ReadFrom(p)
 	return n, err
@@ -202,11 +209,12 @@ func newBridge() *sBridge {
 	}()
 	return s
 }
+func (s *sBridge) Raw() interface{}                  { return s.r }
 func (s *sBridge) SetReadDeadline(t time.Time) error { return s.r.SetReadDeadline(t) }
 func (s *sBridge) Read(p []byte) (int, error)        { return s.r.Read(p) }
-func (s *sBridge) Deliver(d []byte) bool              { _, err := s.w.Write(d); return err == nil }
-func (s *sBridge) ReadFrame() string                  { return "test.(*bridgeConn).Read" }
-func (s *sBridge) Close()                             { close(s.stop) }
+func (s *sBridge) Deliver(d []byte) bool             { _, err := s.w.Write(d); return err == nil }
+func (s *sBridge) ReadFrame() string                 { return "test.(*bridgeConn).Read" }
+func (s *sBridge) Close()                            { close(s.stop) }
 
 func newSubject(name string) (subject, error) {
 	switch name {
@@ -228,9 +236,10 @@ func newSubject(name string) (subject, error) {
 // ---------- scripts ----------
 
 type op struct {
-	K  string `json:"k"`            // zero past near far idle deliver read park
-	Ms int    `json:"ms,omitempty"` // near: ms ahead; idle: ms
-	X  string `json:"x,omitempty"`  // park: what happens while the read is parked: past near deliver near-zero-deliver far-deliver
+	K   string `json:"k"`             // zero past near far idle deliver read park
+	Ms  int    `json:"ms,omitempty"`  // near: ms ahead; idle: ms
+	X   string `json:"x,omitempty"`   // park: what happens while the read is parked: past near deliver near-zero-deliver far-deliver
+	Via string `json:"via,omitempty"` // zero/past/near/far: "" = SetReadDeadline, "all" = SetDeadline (when the type offers it); wdl: kind of write deadline
 }
 
 type script struct {
@@ -273,17 +282,26 @@ func runScript(sc *script, r *res.Result) (string, string, int) {
 	sets = append(sets, setRec{kind: "zero", done: time.Now()})
 	var pending [][]byte
 	seq := 0
-	set := func(kind string, ms int) {
-		var t time.Time
+	via := ""
+	mk := func(kind string, ms int) time.Time {
 		switch kind {
 		case "past":
-			t = time.Now().Add(-time.Hour)
+			return time.Now().Add(-time.Hour)
 		case "near":
-			t = time.Now().Add(time.Duration(ms) * time.Millisecond)
+			return time.Now().Add(time.Duration(ms) * time.Millisecond)
 		case "far":
-			t = time.Now().Add(time.Hour)
+			return time.Now().Add(time.Hour)
 		}
-		sub.SetReadDeadline(t)
+		return time.Time{}
+	}
+	set := func(kind string, ms int) {
+		t := mk(kind, ms)
+		if sd, ok := sub.Raw().(interface{ SetDeadline(time.Time) error }); ok && via == "all" {
+			sd.SetDeadline(t) // both directions: the read deadline is t as well
+			r.Count("sets_via_SetDeadline", 1)
+		} else {
+			sub.SetReadDeadline(t)
+		}
 		sets = append(sets, setRec{d: t, done: time.Now(), kind: kind})
 		r.Count("sets_"+kind, 1)
 	}
@@ -405,7 +423,15 @@ func runScript(sc *script, r *res.Result) (string, string, int) {
 	for i, o := range sc.Ops {
 		switch o.K {
 		case "zero", "past", "near", "far":
+			via = o.Via
 			set(o.K, o.Ms)
+			via = ""
+		case "wdl":
+			// a write deadline must not influence reads
+			if sd, ok := sub.Raw().(interface{ SetWriteDeadline(time.Time) error }); ok {
+				sd.SetWriteDeadline(mk(o.Via, 5))
+				r.Count("write_deadline_sets", 1)
+			}
 		case "idle":
 			time.Sleep(time.Duration(o.Ms) * time.Millisecond)
 		case "deliver":
@@ -536,13 +562,15 @@ func genScript(rng *rand.Rand, subj string) *script {
 	for i := 0; i < n; i++ {
 		switch k := rng.Intn(100); {
 		case k < 8:
-			sc.Ops = append(sc.Ops, op{K: "zero"})
-		case k < 18:
-			sc.Ops = append(sc.Ops, op{K: "past"})
-		case k < 32:
-			sc.Ops = append(sc.Ops, op{K: "near", Ms: 2 + rng.Intn(19)})
+			sc.Ops = append(sc.Ops, op{K: "zero", Via: []string{"", "all"}[rng.Intn(2)]})
+		case k < 16:
+			sc.Ops = append(sc.Ops, op{K: "past", Via: []string{"", "all"}[rng.Intn(2)]})
+		case k < 28:
+			sc.Ops = append(sc.Ops, op{K: "near", Ms: 2 + rng.Intn(19), Via: []string{"", "", "all"}[rng.Intn(3)]})
+		case k < 34:
+			sc.Ops = append(sc.Ops, op{K: "far", Via: []string{"", "all"}[rng.Intn(2)]})
 		case k < 40:
-			sc.Ops = append(sc.Ops, op{K: "far"})
+			sc.Ops = append(sc.Ops, op{K: "wdl", Via: []string{"zero", "past", "near", "far"}[rng.Intn(4)]})
 		case k < 50 && idles < 2:
 			idles++
 			sc.Ops = append(sc.Ops, op{K: "idle", Ms: 275})
@@ -555,7 +583,7 @@ func genScript(rng *rand.Rand, subj string) *script {
 		}
 	}
 	// directed patterns
-	switch rng.Intn(6) {
+	switch rng.Intn(8) {
 	case 0: // expires unobserved, then extended, then data
 		sc.Ops = append(sc.Ops, op{K: "near", Ms: 3}, op{K: "idle", Ms: 275}, op{K: "far"}, op{K: "deliver"}, op{K: "read"})
 	case 1: // two reads after an expiry
@@ -564,6 +592,10 @@ func genScript(rng *rand.Rand, subj string) *script {
 		sc.Ops = append(sc.Ops, op{K: "deliver"}, op{K: "near", Ms: 3}, op{K: "idle", Ms: 275}, op{K: "read"}, op{K: "read"}, op{K: "zero"}, op{K: "read"})
 	case 3:
 		sc.Ops = append(sc.Ops, op{K: "past"}, op{K: "deliver"}, op{K: "read"}, op{K: "near", Ms: 500}, op{K: "read"})
+	case 4: // the read deadline expires, then everything is cleared with SetDeadline(zero) while the write deadline is still zero
+		sc.Ops = append(sc.Ops, op{K: "near", Ms: 3}, op{K: "idle", Ms: 275}, op{K: "zero", Via: "all"}, op{K: "deliver"}, op{K: "read"})
+	case 5: // write deadline first, then SetDeadline: the read deadline must be installed
+		sc.Ops = append(sc.Ops, op{K: "wdl", Via: "zero"}, op{K: "past"}, op{K: "zero", Via: "all"}, op{K: "deliver"}, op{K: "read"}, op{K: "park", X: "past"})
 	}
 	return sc
 }
